@@ -433,7 +433,9 @@ pub fn run(opts: &Opts) -> i32 {
 
     // ---- A. random packets
     let n_rand = ((if quick { 1_000_000.0 } else { 40_000_000.0 }) * sc) as u64;
-    let batch = 200u64;
+    // (interpreter stage: small batches and small sweep chunks)
+    let interp = std::env::var("VERIF_SANITIZER").as_deref() == Ok("miri");
+    let batch = if interp { 12u64 } else { 200u64 };
     pool::par_for(n_rand / batch, None, |bi| {
         let mut rng = Rng::for_case(opts.seed, "C01-rand", bi);
         for k in 0..batch {
@@ -531,7 +533,7 @@ pub fn run(opts: &Opts) -> i32 {
         ranges.push((1, max, 1));
     }
     let mut total_vals = 0u64;
-    let chunk = 1u64 << 16;
+    let chunk = if interp { 48u64 } else { 1u64 << 16 };
     let mut chunks: Vec<(u32, u32, u32)> = Vec::new();
     for (lo, hi, stride) in ranges {
         let mut a = lo as u64;
